@@ -291,7 +291,7 @@ PROPS = {
         "units": [
             {"pkg": "./c02", "shards": 6, "shards_thorough": 16, "timeout": 300},
             {"pkg": "./c02c", "race": True, "shards": 2, "shards_thorough": 4, "timeout": 300},
-            {"pkg": "./mainpkg", "run": "^TestC02b", "shards": 2, "shards_thorough": 4, "timeout": 300},
+            {"pkg": "./mainpkg", "run": "^TestC02b|^TestC02Pipeline", "shards": 2, "shards_thorough": 4, "timeout": 300},
         ],
         "fuzz": [{"pkg": "./c02", "target": "FuzzC02NewTable", "time": "300s"}],
         "rule": ("(a) rapid-generated route-config texts from a line grammar (add/del/weight, comments, flexible spacing, CRLF) salted with hostile tokens: non-finite/huge/denormal/hex weights, "
